@@ -11,7 +11,8 @@ CONSTANTS
   Pads = {0, 1, 2, 3, 4, 5, 6, 7}
   Props = {0, 77}
   CtlFroms = {}
-  CtlSizes = {1}
+  MemSizes = {1}
+  LockBits = {}
   CtlTypes = {2}
   TwoCtl = FALSE
   OldLens = {0, 1, 5, 9}
